@@ -5,6 +5,10 @@ CLAIMS = {
    technique=TECH + 'path enumeration of Step/Terminated/_Solve with forward substitution, order abstraction of the limit tests, decision-table extraction of warnflag chains, who-may-write on the exit flag',
    text='Decides, for every path of the code, the structural clauses of the stopping discipline: Step reaches _Step only with an empty log or a falsy Terminated(); Terminated resolves the limits first, consults termination + both limits (as count >= limit over all orderings) + the exit flag, and its message names the branch that fired; limit bookkeeping pairs generations/evaluations correctly for new=True and the "*" sentinel; wrappers derive warnflag from the same tests; only __init__/Solve/the signal handler write the exit flag. These are necessary conditions; a change that breaks one breaks the property for some history.',
    note='Not decided: that Solve returns for every cost function, the size of the evaluation overshoot within one iteration, behaviour of user termination callables. Trusted: python ast, rule tables in sa/rules/c05.py.'),
+ 'C04': dict(
+   technique=TECH + 'path enumeration of wrap_function (count-per-path of increment / raw call / monitor call), who-may-write on the counter cell, abstract simulation of the step-monitor protocol extracted from _Step/Finalize (generation ticks, callbacks), argument-role check of the record',
+   text='Decides the structural clauses of counter/monitor faithfulness on every path: the evaluation counter and evaluation monitor are bound around the raw cost (exactly one increment, one raw call, one monitor call with the unscaled value); only the wrapper and a frozen table of writers touch the counter and every rebinding carries the old count; evaluations/generations getters read the cell / the log; in every reachable bookkeeping state (log length x decoupled energy history) _Step adds exactly one generation and Finalize none, with one guarded callback(bestSolution) after the record; the record is the best pair; monitor replacement prepends the old contents.',
+   note='Not decided: number of cost calls per iteration, equality of monitor contents with real calls under non-default maps, monotonicity of the best energy under non-idempotent constraints (its structural half, strict-< replacement, is decided under C01/C08). DE2 recomputing its counter is a recorded known finding (D3a/D3b).'),
 }
 NOT_APPLICABLE = {}
 for _i in range(1, 21):
